@@ -157,6 +157,9 @@ harnesses! {
     n5_iter_s2, unwind = 8, raw = 11, |r| check_ns_pop_iter(r, 2, true, false);
     n5_pop_s3, unwind = 8, raw = 11, |r| check_ns_pop_iter(r, 3, false, true);
     n5_iter_s3, unwind = 8, raw = 11, |r| check_ns_pop_iter(r, 3, true, false);
+    n5_iter_s4, unwind = 8, raw = 11, |r| check_ns_pop_iter(r, 4, true, false);
+    n5_iter_s5, unwind = 8, raw = 11, |r| check_ns_pop_iter(r, 5, true, false);
+    n5_resolve_s4, unwind = 8, raw = 14, |r| check_ns_resolve(r, 4);
     n5_push_t0,    unwind = 16, raw = 2, |r| check_ns_push(r, 0);
     n5_push_t1,    unwind = 14, raw = 2, |r| check_ns_push(r, 1);
     n5_push_t2,    unwind = 15, raw = 2, |r| check_ns_push(r, 2);
@@ -187,6 +190,7 @@ harnesses! {
     w19_start_grow, unwind = 14, raw = 7, |r| check_indent_step(r, 0, true);
     w19_end_grow, unwind = 14, raw = 7, |r| check_indent_step(r, 1, true);
     w19_comment_grow, unwind = 14, raw = 7, |r| check_indent_step(r, 4, true);
+    w19_two_starts_grow, unwind = 14, raw = 7, |r| check_indent_two_starts(r);
     w8_start_n3, unwind = 6, raw = 4, |r| check_writer_table::<3>(r, 0);
     w8_end_n3, unwind = 6, raw = 4, |r| check_writer_table::<3>(r, 1);
     w8_empty_n3, unwind = 6, raw = 4, |r| check_writer_table::<3>(r, 2);
@@ -257,6 +261,8 @@ harnesses! {
     #[kani::stub(core::str::from_utf8, from_utf8_ascii)]
     #[kani::stub(alloc::string::String::from_utf8, string_from_utf8_ascii)]
     x10_esc_min_mid,  unwind = 16, raw = 1,  |r| check_escape1(r, 2, b">x<", 1);
+    x10_esc_full_u2, unwind = 16, raw = 2, |r| check_escape_u2(r, 0);
+    x10_esc_min_u2,  unwind = 16, raw = 2, |r| check_escape_u2(r, 2);
     #[kani::stub(core::str::from_utf8, from_utf8_ascii)]
     #[kani::stub(alloc::string::String::from_utf8, string_from_utf8_ascii)]
     x10_inv_lt,   unwind = 12, raw = 1, |r| check_unescape_entity(r, 0);
@@ -299,7 +305,47 @@ harnesses! {
     d16_end_all_n3,  unwind = 5,  raw = 8, |r| check_cfgdiff::<3, 3>(r, &rgc(ST_MARKUP, b'/', b"", 0x7a), 0);
     d16_text_all_n3, unwind = 5,  raw = 8, |r| check_cfgdiff::<3, 3>(r, &rgc(ST_TEXT, 0, b"", 0x7a), 0);
 
+    // ---- one XmlSource helper: buffered (chunked / faulty source) vs slice; raw = 1 + K + F + N
+    h2_text_n5,  unwind = 8, raw = 7,  |r| check_helper::<5, 1, 0>(r, 0, C02, 0);
+    h2_text_n8k2, unwind = 11, raw = 11, |r| check_helper::<8, 2, 0>(r, 0, C02, 0);
+    h18_text_n4, unwind = 10, raw = 9,  |r| check_helper::<4, 1, 3>(r, 0, C02 | C18, 0);
+    h2_elem_n5,  unwind = 8, raw = 7,  |r| check_helper::<5, 1, 0>(r, 1, C02, 0);
+    h2_elem_n8k2, unwind = 11, raw = 11, |r| check_helper::<8, 2, 0>(r, 1, C02, 0);
+    h18_elem_n4, unwind = 10, raw = 9,  |r| check_helper::<4, 1, 3>(r, 1, C02 | C18, 0);
+    h2_pi_n5,  unwind = 8, raw = 7,  |r| check_helper::<5, 1, 0>(r, 2, C02, 0);
+    h2_pi_n8k2, unwind = 11, raw = 11, |r| check_helper::<8, 2, 0>(r, 2, C02, 0);
+    h18_pi_n4, unwind = 10, raw = 9,  |r| check_helper::<4, 1, 3>(r, 2, C02 | C18, 0);
+    h2_bang_n5,  unwind = 8, raw = 7,  |r| check_helper::<5, 1, 0>(r, 3, C02, 33);
+    h2_bang_n8k2, unwind = 11, raw = 11, |r| check_helper::<8, 2, 0>(r, 3, C02, 33);
+    h18_bang_n4, unwind = 10, raw = 9,  |r| check_helper::<4, 1, 3>(r, 3, C02 | C18, 33);
+    h2_skipws_n5,  unwind = 8, raw = 7,  |r| check_helper::<5, 1, 0>(r, 4, C02, 0);
+    h2_skipws_n8k2, unwind = 11, raw = 11, |r| check_helper::<8, 2, 0>(r, 4, C02, 0);
+    h18_skipws_n4, unwind = 10, raw = 9,  |r| check_helper::<4, 1, 3>(r, 4, C02 | C18, 0);
+    h2_peek_n5,  unwind = 8, raw = 7,  |r| check_helper::<5, 1, 0>(r, 5, C02, 0);
+    h2_peek_n8k2, unwind = 11, raw = 11, |r| check_helper::<8, 2, 0>(r, 5, C02, 0);
+    h18_peek_n4, unwind = 10, raw = 9,  |r| check_helper::<4, 1, 3>(r, 5, C02 | C18, 0);
+    h2_bom_n5,  unwind = 8, raw = 7,  |r| check_helper::<5, 1, 0>(r, 6, C02, 0);
+    h2_bom_n8k2, unwind = 11, raw = 11, |r| check_helper::<8, 2, 0>(r, 6, C02, 0);
+    h18_bom_n4, unwind = 10, raw = 9,  |r| check_helper::<4, 1, 3>(r, 6, C02 | C18, 0);
+    h2_text_n4,  unwind = 7, raw = 6,  |r| check_helper::<4, 1, 0>(r, 0, C02, 0);
+    h18_text_n3, unwind = 9, raw = 8,  |r| check_helper::<3, 1, 3>(r, 0, C02 | C18, 0);
+    h2_elem_n4,  unwind = 7, raw = 6,  |r| check_helper::<4, 1, 0>(r, 1, C02, 0);
+    h18_elem_n3, unwind = 9, raw = 8,  |r| check_helper::<3, 1, 3>(r, 1, C02 | C18, 0);
+    h2_pi_n4,  unwind = 7, raw = 6,  |r| check_helper::<4, 1, 0>(r, 2, C02, 0);
+    h18_pi_n3, unwind = 9, raw = 8,  |r| check_helper::<3, 1, 3>(r, 2, C02 | C18, 0);
+    h2_bang_n4,  unwind = 7, raw = 6,  |r| check_helper::<4, 1, 0>(r, 3, C02, 33);
+    h18_bang_n3, unwind = 9, raw = 8,  |r| check_helper::<3, 1, 3>(r, 3, C02 | C18, 33);
+    h2_skipws_n4,  unwind = 7, raw = 6,  |r| check_helper::<4, 1, 0>(r, 4, C02, 0);
+    h18_skipws_n3, unwind = 9, raw = 8,  |r| check_helper::<3, 1, 3>(r, 4, C02 | C18, 0);
+    h2_peek_n4,  unwind = 7, raw = 6,  |r| check_helper::<4, 1, 0>(r, 5, C02, 0);
+    h18_peek_n3, unwind = 9, raw = 8,  |r| check_helper::<3, 1, 3>(r, 5, C02 | C18, 0);
+    h2_bom_n4,  unwind = 7, raw = 6,  |r| check_helper::<4, 1, 0>(r, 6, C02, 0);
+    h18_bom_n3, unwind = 9, raw = 8,  |r| check_helper::<3, 1, 3>(r, 6, C02 | C18, 0);
+
     // ---- buffered step vs slice step; raw = 7 + K + F + N; generics <N, P, K cuts, F scheduled refills>
+    b2_text_n3,     unwind = 6,  raw = 11, |r| check_bufstep::<3, 3, 1, 0>(r, &rg(ST_TEXT, 0, b"", 0), C02);
+    b2_text_n2,     unwind = 5,  raw = 10, |r| check_bufstep::<2, 2, 1, 0>(r, &rg(ST_TEXT, 0, b"", 0), C02);
+    b2_tag_n3,      unwind = 6,  raw = 11, |r| check_bufstep::<3, 3, 1, 0>(r, &rg(ST_MARKUP, 1, b"", 0), C02);
     b2_tag_n4,      unwind = 7,  raw = 12, |r| check_bufstep::<4, 4, 1, 0>(r, &rg(ST_MARKUP, 1, b"", 0), C02);
     b2_end_n4,      unwind = 7,  raw = 12, |r| check_bufstep::<4, 4, 1, 0>(r, &rg(ST_MARKUP, b'/', b"", 0), C02);
     b2_pi_n4,       unwind = 7,  raw = 12, |r| check_bufstep::<4, 4, 1, 0>(r, &rg(ST_MARKUP, b'?', b"", 0), C02);
